@@ -8,6 +8,7 @@ use serde_json::{Map, Value};
 use crate::error::Error;
 use crate::op::logic;
 use crate::value::{Evaluated, Parsed};
+use crate::NULL;
 
 /// Map an operation onto values
 pub fn map(data: &Value, args: &Vec<&Value>) -> Result<Value, Error> {
@@ -92,6 +93,32 @@ pub fn filter(data: &Value, args: &Vec<&Value>) -> Result<Value, Error> {
         .map(Value::Array)
 }
 
+/// Deepest nesting `reduce` lets its accumulator reach. It is the deepest
+/// nesting serde_json accepts when reading JSON text (its recursion limit of
+/// 128 admits 127 nested containers), so a result can always be read back,
+/// and it keeps recursive clones and drops of the accumulator shallow.
+const MAX_ACCUMULATOR_DEPTH: usize = 127;
+
+/// Whether a value nests arrays / objects more than `limit` levels deep.
+///
+/// Written with an explicit stack on purpose: the values this is meant to
+/// catch are the ones too deep to recurse into.
+fn nested_deeper_than(value: &Value, limit: usize) -> bool {
+    let mut pending: Vec<(&Value, usize)> = vec![(value, 0)];
+    while let Some((current, depth)) = pending.pop() {
+        let children: Box<dyn Iterator<Item = &Value>> = match current {
+            Value::Array(items) => Box::new(items.iter()),
+            Value::Object(map) => Box::new(map.values()),
+            _ => continue,
+        };
+        if depth + 1 > limit {
+            return true;
+        }
+        pending.extend(children.map(|child| (child, depth + 1)));
+    }
+    false
+}
+
 /// Reduce values into a single result
 ///
 /// Note this differs from the reference implementation of jsonlogic
@@ -135,9 +162,25 @@ pub fn reduce(data: &Value, args: &Vec<&Value>) -> Result<Value, Error> {
             data.insert("current".into(), cur);
             data.insert("accumulator".into(), accumulator);
 
-            parsed_expression
+            let next: Value = parsed_expression
                 .evaluate(&Value::Object(data))
-                .map(Value::from)
+                .map(Value::from)?;
+
+            // Each step can wrap the accumulator in another container (e.g.
+            // the expression `{"var": ""}`), so a flat rule over a long array
+            // could build a value deep enough to overflow the stack when it
+            // is cloned, printed or dropped. Refuse to go that deep.
+            if nested_deeper_than(&next, MAX_ACCUMULATOR_DEPTH) {
+                return Err(Error::InvalidArgument {
+                    value: NULL,
+                    operation: "reduce".into(),
+                    reason: format!(
+                        "The accumulator became nested more than {} levels deep",
+                        MAX_ACCUMULATOR_DEPTH
+                    ),
+                });
+            }
+            Ok(next)
         })
 }
 
